@@ -3,7 +3,9 @@
 package progcheck
 
 import (
+	"encoding/json"
 	"fmt"
+	"os"
 	"strings"
 
 	rt "github.com/arnodel/golua/runtime"
@@ -153,8 +155,32 @@ func ExpectedOf(res luaref.Result) Expected {
 	return Expected{Events: res.Events, Rets: res.Rets, Err: res.Err}
 }
 
+// MarkInflight records the case about to run in "<VERIF_OUT>.inflight", in the
+// format of a replay file. A Go panic in one of golua's own goroutines (a
+// coroutine) cannot be recovered by the test and kills the worker process; the
+// driver then re-runs the recorded case in a fresh process and, if that dies
+// in golua code again, reports it as a violation with this file as replay.
+func MarkInflight(kind string, c any) {
+	out := os.Getenv("VERIF_OUT")
+	if out == "" || os.Getenv("VERIF_REPLAY") != "" {
+		return
+	}
+	b, err := json.Marshal(c)
+	if err != nil {
+		return
+	}
+	rf, _ := json.Marshal(ev.ReplayFile{Property: os.Getenv("VERIF_PROPERTY"), Kind: kind, Case: b, Msg: "in flight when the worker process died"})
+	os.WriteFile(out+".inflight", rf, 0o644)
+}
+
+// SkipInflight: the caller records its own (richer) case with MarkInflight.
+var SkipInflight bool
+
 // RunGolua runs the source text in a fresh golua runtime.
 func RunGolua(c Case, o harness.Opts) *harness.Trace {
+	if !SkipInflight {
+		MarkInflight("program", c)
+	}
 	o.ChunkName = Chunk
 	o.Args = GoluaArgs(c.Args)
 	return harness.Run(c.Source, o)
